@@ -80,32 +80,57 @@ def BOp.eval : BOp → Bool → Bool → Bool
   | .imp, a, b => !a || b
   | .iff, a, b => a == b
 
-/-- `explode_function`: a decision tree over the arguments with a fresh zero-arity parameter per row -/
-def explode : List Fn → List Char → Fn
-  | [], pre => .param pre []
+/-- an upper bound of the lengths of the variable names -/
+def maxLen : List (List Char) → Nat
+  | [] => 0
+  | n :: ns => max n.length (maxLen ns)
+
+theorem le_maxLen {taken : List (List Char)} {n : List Char} (h : n ∈ taken) : n.length ≤ maxLen taken := by
+  induction taken with
+  | nil => cases h
+  | cons m ms ih =>
+    simp only [maxLen]
+    rcases List.mem_cons.mp h with rfl | h
+    · omega
+    · have := ih h; omega
+
+/-- the name of a generated constant, extended by underscores until it is not the name of a network variable
+(repair D13: `add_parameter` refuses a name that is already a variable) -/
+def fresh (taken : List (List Char)) (n : List Char) : List Char :=
+  if h : n ∈ taken then fresh taken (n ++ ['_']) else n
+termination_by maxLen taken + 1 - n.length
+decreasing_by
+  have := le_maxLen h
+  simp only [List.length_append, List.length_cons, List.length_nil]
+  omega
+
+/-- `explode_function`: a decision tree over the arguments with a fresh zero-arity parameter per row;
+`taken` are the names of the network's variables -/
+def explode (taken : List (List Char)) : List Fn → List Char → Fn
+  | [], pre => .param (fresh taken pre) []
   | a :: as, pre =>
-    .bin .and (.bin .imp a (explode as (pre ++ ['1']))) (.bin .imp (.not a) (explode as (pre ++ ['0'])))
+    .bin .and (.bin .imp a (explode taken as (pre ++ ['1']))) (.bin .imp (.not a) (explode taken as (pre ++ ['0'])))
 
 mutual
 /-- `flatten_fn_update` (after repair D8: arguments are flattened first) -/
-def flatten : Fn → Fn
+def flatten (taken : List (List Char)) : Fn → Fn
   | .const b => .const b
   | .var i => .var i
-  | .not f => .not (flatten f)
-  | .param name args => explode (flattenList args) (name ++ ['_'])
-  | .bin o l r => .bin o (flatten l) (flatten r)
-def flattenList : List Fn → List Fn
+  | .not f => .not (flatten taken f)
+  | .param name args => explode taken (flattenList taken args) (name ++ ['_'])
+  | .bin o l r => .bin o (flatten taken l) (flatten taken r)
+def flattenList (taken : List (List Char)) : List Fn → List Fn
   | [] => []
-  | f :: fs => flatten f :: flattenList fs
+  | f :: fs => flatten taken f :: flattenList taken fs
 end
 
 /-- `flatten_update_function` for one variable: explicit function, or implicit function of its regulators;
 variables without regulators are skipped -/
-def flattenVar (varName : List Char) (regulators : List Nat) (update : Option Fn) : Option Fn :=
+def flattenVar (taken : List (List Char)) (varName : List Char) (regulators : List Nat) (update : Option Fn) : Option Fn :=
   if regulators.isEmpty then update  -- skipped: stays as it is (a free input when it has no function)
   else match update with
-    | some f => some (flatten f)
-    | none => some (explode (regulators.map Fn.var) (varName ++ ['_']))
+    | some f => some (flatten taken f)
+    | none => some (explode taken (regulators.map Fn.var) (varName ++ ['_']))
 
 def bitsOf (bs : List Bool) : List Char := bs.map (fun b => if b then '1' else '0')
 
@@ -122,9 +147,9 @@ def evalList (env : Nat → Bool) (κ : List Char → List Bool → Bool) : List
   | f :: fs => eval env κ f :: evalList env κ fs
 end
 
-/-- interpretation of the original symbols induced by the fresh constants: `f(b₁…bₙ) = f_b₁…bₙ` -/
-def induced (κ0 : List Char → Bool) : List Char → List Bool → Bool :=
-  fun name bs => κ0 (name ++ '_' :: bitsOf bs)
+/-- interpretation of the original symbols induced by the fresh constants: `f(b₁…bₙ) = f_b₁…bₙ` (made fresh) -/
+def induced (taken : List (List Char)) (κ0 : List Char → Bool) : List Char → List Bool → Bool :=
+  fun name bs => κ0 (fresh taken (name ++ '_' :: bitsOf bs))
 
 /-- interpretation that reads only zero-arity constants -/
 def constsOnly (κ0 : List Char → Bool) : List Char → List Bool → Bool := fun name _ => κ0 name
